@@ -44,7 +44,7 @@ CHECKS = {
          "Trusts math/big and harness/oracle/weier (self-tested on published multiples of G and against crypto/elliptic P-256).",
          "DESIGN.md §3 C17"),
  "C06": ("runtime monitor over recorded operation histories: each Absorb/Squeeze/Clone/Reset of a seeded history is mirrored on independent single-lane Curl-P-81 sponges (executable model) and every squeezed lane compared; default (assembly) and purego builds, digests compared",
-         "Exploration: ~1 k (quick) / 48 k (thorough) histories per build over batch sizes 1..64, split absorbs, repeated squeezes, clones continued differently, resets, rejected calls (state must stay untouched).",
+         "Exploration: ~1 k (quick) / 30 k (thorough) histories per build (default, default+cpuoff, purego; fewer on 386) over batch sizes 1..64, split absorbs, repeated squeezes, clones continued differently, resets, rejected calls (state must stay untouched).",
          "Trusts harness/oracle/curlp (self-tested on published Curl-P-81 hashes). Lanes beyond the absorbed batch and absorb-after-squeeze are outside the statement.",
          "DESIGN.md §3 C06"),
  "C11": ("runtime monitor: every nonce returned by Mine re-scored with the package's and an independent model score; process-survival monitor (child process per shard, case-in-flight slot); Score and the bit-plane lane test (hook) against exact definitions",
